@@ -221,7 +221,7 @@ theorem prefix_convex (h : LawfulCmp c) : ∀ (p a b d : List α), p <+: a → p
 
 /-! ### longest common prefix -/
 
-theorem lcp_take_prefix_left : ∀ (q o : Name), q.take (lcp q o) <+: q := fun q o => List.take_prefix _ _
+theorem lcp_take_prefix_left : ∀ (q o : Name), q.take (lcp q o) <+: q := fun _ _ => List.take_prefix _ _
 
 theorem lcp_take_prefix_right : ∀ (q o : Name), q.take (lcp q o) <+: o := by
   intro q
@@ -642,7 +642,7 @@ theorem InGap.ne_apex {z : Zone} (hz : z.WF) {o n q : Name} (h : InGap z o n q) 
 
 /-- a name in a gap that lies below a cut lies below the *owner* of the
 span, and that owner is the cut. -/
-theorem InGap.occluded {z : Zone} (hz : z.WF) {o n q : Name} (h : InGap z o n q)
+theorem InGap.occluded {z : Zone} (_hz : z.WF) {o n q : Name} (h : InGap z o n q)
     (hocc : z.occluded q = true) :
     ∃ a ∈ z.auth, a.name = o ∧ cutTypes a.types = true ∧ o <+: q ∧ o ≠ q := by
   obtain ⟨c, hc, hcut, hpre, hne⟩ := occluded_has_auth_cut z q.length q (Nat.le_refl _) hocc
@@ -677,7 +677,7 @@ theorem isStrictSub_iff (name parent : Name) :
 
 /-- in a gap, "empty non-terminal" is exactly "the next name is below `q`"
 (RFC 8198 Appendix B). -/
-theorem InGap.isENT_iff {z : Zone} (hz : z.WF) {o n q : Name} (h : InGap z o n q) (hq : z.apex <+: q) :
+theorem InGap.isENT_iff {z : Zone} (_hz : z.WF) {o n q : Name} (h : InGap z o n q) (hq : z.apex <+: q) :
     z.isENT q = true ↔ isStrictSub n q = true := by
   rw [isStrictSub_iff]
   unfold Zone.isENT
